@@ -878,6 +878,9 @@ def full_traversal(P, R, rule, fn, is_iter_cond, what, error_returns=False):
                         ss = fn.block_sites(e.dst)
                         if ss and ss[-1].ev['k'] == 'ret' and ss[-1].ev.get('val') is not None and const_of(ss[-1].ev['val']) != 0 and all(t.ev['k'] == 'ret' for t in ss):
                             continue
+                        # the same inside a helper that was folded into fn: its `return res;` is a store into its result variable
+                        if ss and all(t.ev['k'] == 'store' and is_var(t.ev.get('lhs')) and t.ev['lhs']['name'].startswith('__ret@') and const_of(t.ev.get('rhs')) != 0 for t in ss):
+                            continue
                     exits.append(e)
         n += 1
         loc = (fn.blocks[head].get('term') or {}).get('loc')
